@@ -28,9 +28,11 @@ def _plan(draw, max_items):
     nk = draw(st.sampled_from([1, 1, 2]))
     kinds = [draw(st.sampled_from(["i", "s", "i", "s", "tu"])) for _ in range(nk)]
     by = []
+    # now and then the keys are named like attributes every dict has (a key is an entry, not an attribute)
+    attrnames = draw(st.integers(0, 5)) == 0
     for j in range(nk):
-        ln = f"k{j}"
-        rn = ln if (op == "aggregate" or draw(st.integers(0, 2))) else f"r{j}"
+        ln = ["items", "keys"][j] if attrnames else f"k{j}"
+        rn = ln if (op == "aggregate" or draw(st.integers(0, 2))) else (["values", "copy"][j] if attrnames else f"r{j}")
         by.append([ln, rn])
     size = st.one_of(st.sampled_from([0, 1]), st.integers(0, max_items))
     nl, nr = draw(size), draw(size)
@@ -59,6 +61,8 @@ def _plan(draw, max_items):
             it[draw(st.sampled_from(["k", "r", "0", "", "k0x", "1"]))] = draw(st.sampled_from([None, 3, "u"]))
         right.append(it)
     plan = {"op": op, "by": by, "left": left, "right": right}
+    if op != "aggregate" and draw(st.integers(0, 4)) == 0:
+        plan["right_grouped"] = True          # the right-hand list went through group_by(<its join keys>) before
     if op != "aggregate" and nr and draw(st.integers(0, 3)) == 0:
         edits = []
         for _ in range(draw(st.integers(1, 2))):
@@ -151,6 +155,9 @@ def check(plan, ctx):
         plan = dict(plan, left=plan["left"] + plan["left"][:plan["alias"]])
         ctx.cls("aliased_left_items")
     R = di.ListOfDicts([dict(x) for x in plan["right"]])
+    if plan.get("right_grouped"):
+        R.group_by(*[b for _, b in plan["by"]])        # marks the list itself; a join still takes the FIRST match
+        ctx.cls("right_list_was_grouped_by_the_join_keys")
     _check_join(plan, L, R, ctx)
     if plan.get("edits") and plan["right"]:
         # history: the same right-hand list object is edited in place (length unchanged) and used in a second join
